@@ -67,25 +67,28 @@ private:
 };
 
 // although iterator_adaptor defines these, the default implementation computes distance and compares for zero.
-// it is often faster to just apply the relation operator to the base
+// it is often faster to compare the positions of the base iterators in memory.
+// (The base iterators are not compared with their own relational operators: a base that is itself a step
+// iterator with a negative step, as in the y-iterators of a horizontally flipped view, orders its
+// positions against their memory order.)
 template <typename D,typename Iterator,typename SFn> inline
 bool operator>(const step_iterator_adaptor<D,Iterator,SFn>& p1, const step_iterator_adaptor<D,Iterator,SFn>& p2) {
-    return p1.step()>0 ? p1.base()> p2.base() : p1.base()< p2.base();
+    return p1.step()>0 ? memunit_distance(p2.base(),p1.base())> 0 : memunit_distance(p2.base(),p1.base())< 0;
 }
 
 template <typename D,typename Iterator,typename SFn> inline
 bool operator<(const step_iterator_adaptor<D,Iterator,SFn>& p1, const step_iterator_adaptor<D,Iterator,SFn>& p2) {
-    return p1.step()>0 ? p1.base()< p2.base() : p1.base()> p2.base();
+    return p1.step()>0 ? memunit_distance(p2.base(),p1.base())< 0 : memunit_distance(p2.base(),p1.base())> 0;
 }
 
 template <typename D,typename Iterator,typename SFn> inline
 bool operator>=(const step_iterator_adaptor<D,Iterator,SFn>& p1, const step_iterator_adaptor<D,Iterator,SFn>& p2) {
-    return p1.step()>0 ? p1.base()>=p2.base() : p1.base()<=p2.base();
+    return p1.step()>0 ? memunit_distance(p2.base(),p1.base())>=0 : memunit_distance(p2.base(),p1.base())<=0;
 }
 
 template <typename D,typename Iterator,typename SFn> inline
 bool operator<=(const step_iterator_adaptor<D,Iterator,SFn>& p1, const step_iterator_adaptor<D,Iterator,SFn>& p2) {
-    return p1.step()>0 ? p1.base()<=p2.base() : p1.base()>=p2.base();
+    return p1.step()>0 ? memunit_distance(p2.base(),p1.base())<=0 : memunit_distance(p2.base(),p1.base())>=0;
 }
 
 template <typename D,typename Iterator,typename SFn> inline
